@@ -88,6 +88,13 @@ func c18Positions() []c18Position {
 		{"definition", true, func(f any) ([]genlab.File, []string) {
 			return one(J{"type": "object", "properties": J{"ok": ok}, "$defs": J{"Bad": f}})
 		}},
+		// the same under the legacy keyword (decoded in a second pass of the schema parser), unreferenced
+		{"legacy-definition", true, func(f any) ([]genlab.File, []string) {
+			return one(J{"type": "object", "properties": J{"ok": ok}, "definitions": J{"Bad": f}})
+		}},
+		{"legacy-definition-property", true, func(f any) ([]genlab.File, []string) {
+			return one(J{"type": "object", "properties": J{"ok": ok}, "definitions": J{"D": J{"type": "object", "properties": J{"bad": f}}}})
+		}},
 		{"definition-property", true, func(f any) ([]genlab.File, []string) {
 			return one(J{"type": "object", "properties": J{"ok": ok}, "$defs": J{"D": J{"type": "object", "properties": J{"bad": f}}}})
 		}},
